@@ -11,8 +11,16 @@ class LogicPolicy(symex.Policy):
     max_paths = 400
     dedupe = False      # decision tables are read off the path conditions: never merge paths
 
+    # private functions the rules read as atoms (their own tables are decided separately)
+    ATOMS = ("type_prop", "holds_error", "enter_program", "reads_clock", "nested_deeper_than", "resolve_args", "call_macro", "callable_by_name", "checked_jump_target")
+
     def inline(self, path, body):
-        return path.endswith("CelValue::error_prop_or") or "::{closure" in path
+        if path.endswith("CelValue::error_prop_or") or "::{closure" in path:
+            return True
+        # a private helper (visible only inside its module) is part of the function that calls it - code split off for readability
+        vis = str(body.d.get("vis", ""))
+        name = path.rsplit("::", 1)[-1]
+        return vis.startswith("Restricted") and "DefId(0:0 " not in vis and name not in self.ATOMS and not re.search(r"::get_\w+_by_name$", path)
 
     def stub(self, interp, st, path, c, args, t, caller):
         return None
